@@ -1,0 +1,13 @@
+//go:build verif
+
+// Verification shim for property C13, part 2 (add-only, build tag "verif"): the nap of
+// ExponentialBackoffRetryPolicy, so that the harness can compare it with the model's bounds.
+
+package gocql
+
+import "time"
+
+// VerifC13ExpTime is getExponentialTime (jitter included).
+func VerifC13ExpTime(min, max time.Duration, attempts int) time.Duration {
+	return getExponentialTime(min, max, attempts)
+}
